@@ -150,7 +150,9 @@ pub fn cmd_pwstr(args: &[String]) {
     }
     // salts and hashes whose base64 text happens to begin like another field ("argon2...", "v", "m", "t", "p"): a valid string
     // is recognised by the POSITION of its fields (libsodium), not by what their text looks like
-    for (si, stext) in ["argon2idAAAAAAAAAAAAAA", "argon2iBBBBBBBBBBBBBBA", "argon2ABCDEFGHIJKLMNOA", "vvvvvvvvvvvvvvvvvvvvvA", "mtpmtpmtpmtpmtpmtpmtpA"].iter().enumerate() {
+    let looks: Vec<String> = table.get("lookalike_salts").and_then(|x| x.as_array()).map(|a| a.iter().filter_map(|x| x.as_str().map(|s| s.to_string())).collect()).unwrap_or_default();
+    if looks.is_empty() { rep.fail("HARNESS: PwStr.tla exported no look-alike salts", json!({})); }
+    for (si, stext) in looks.iter().enumerate() {
         let salt = crate::rng::b64dec(stext);
         if salt.len() != 16 { rep.fail("HARNESS: look-alike salt does not decode to 16 bytes", json!(stext)); continue; }
         let pw = rng.bytes(7 + si);
